@@ -19,7 +19,9 @@ RULE = (
     "(attribute order, quote style, XML declaration, indentation, self-closing vs explicit empty elements, character "
     "references, padded text). Oracle: view(from_string(to_string(m))) == expected view computed from the spec; second "
     "serialization byte-identical when all text is in normal form, else idempotent from the second serialization on; foreign "
-    "spellings parse to the same view and re-serialize to the canonical bytes. Non-trivial: >= 1 optional attribute present "
+    "spellings parse to the same view and re-serialize to the canonical bytes; editing a message after it was serialized changes "
+    "the next serialization accordingly; a vector built without children and filled by append round-trips and leaves other "
+    "child-less vectors of the family empty. Non-trivial: >= 1 optional attribute present "
     "and (>= 2 children or some attribute/text containing a markup, quote or non-ASCII character); distinct = canonical JSON."
 )
 SHARDS = {"quick": 4, "thorough": 16}
